@@ -337,6 +337,16 @@ fn conversions(t: &mut Tape, obs: &mut Obs) -> R {
     ensure_eq!(u16::from(TlsCipherSuiteID(v)), v, sig("TlsCipherSuiteID->u16"), "u16::from(TlsCipherSuiteID)");
     ensure_eq!(*TlsCipherSuiteID(v), v, sig("TlsCipherSuiteID:Deref"), "Deref");
     ensure_eq!(*AsRef::<u16>::as_ref(&TlsCipherSuiteID(v)), v, sig("TlsCipherSuiteID:AsRef"), "AsRef");
+    // integer methods reached by method syntax on the newtype (through Deref today; an inherent method of the same name would take over)
+    ensure_eq!(TlsCipherSuiteID(v).to_be_bytes(), [(v >> 8) as u8, v as u8], sig("TlsCipherSuiteID.to_be_bytes()"), "to_be_bytes by method syntax");
+    ensure_eq!(TlsCipherSuiteID(v).to_le_bytes(), [v as u8, (v >> 8) as u8], sig("TlsCipherSuiteID.to_le_bytes()"), "to_le_bytes by method syntax");
+    ensure_eq!(TlsCipherSuiteID(v).swap_bytes(), v.swap_bytes(), sig("TlsCipherSuiteID.swap_bytes()"), "swap_bytes by method syntax");
+    ensure_eq!(TlsCipherSuiteID(v).count_ones(), v.count_ones(), sig("TlsCipherSuiteID.count_ones()"), "count_ones by method syntax");
+    ensure_eq!(TlsCipherSuiteID(v).leading_zeros(), v.leading_zeros(), sig("TlsCipherSuiteID.leading_zeros()"), "leading_zeros by method syntax");
+    ensure_eq!(TlsCipherSuiteID(v).checked_add(1), v.checked_add(1), sig("TlsCipherSuiteID.checked_add()"), "checked_add by method syntax");
+    ensure_eq!(TlsCompressionID(b).to_be_bytes(), [b], sig("TlsCompressionID.to_be_bytes()"), "to_be_bytes by method syntax");
+    ensure_eq!(TlsCompressionID(b).count_ones(), b.count_ones(), sig("TlsCompressionID.count_ones()"), "count_ones by method syntax");
+    ensure_eq!(TlsCompressionID(b).leading_zeros(), b.leading_zeros(), sig("TlsCompressionID.leading_zeros()"), "leading_zeros by method syntax");
     ensure_eq!(format!("{}", TlsCipherSuiteID(v)), v.to_string(), sig("TlsCipherSuiteID:Display"), "Display of a cipher id");
     ensure_eq!(format!("{:x}", TlsCipherSuiteID(v)), format!("{:x}", v), sig("TlsCipherSuiteID:LowerHex"), "LowerHex");
     let dbg = format!("{:?}", TlsCipherSuiteID(v));
